@@ -62,7 +62,7 @@ def make_function(fname, params, defaults, body_lines, env, is_async=False):
     return ns[fname]
 
 
-def tagged_node(name, params, outs, log, defaults=None, emit=(), wait_for=(), cache=False, is_async=False, fail_when=None, op="tag", rename_mode=None):
+def tagged_node(name, params, outs, log, defaults=None, emit=(), wait_for=(), cache=False, is_async=False, fail_when=None, op="tag", rename_mode=None, yields=1):
     """A function node whose result records its own name and the arguments it saw (mis-wiring becomes visible).
 
     op='tag': returns (name, idx, args...) per output;  op='sum': integer sum of args (+1) for loop/arith programs.
@@ -73,10 +73,10 @@ def tagged_node(name, params, outs, log, defaults=None, emit=(), wait_for=(), ca
         params = [f"{p}_in" for p in wiring]
         defaults = {f"{p}_in": v for p, v in defaults.items()}
     body = [f"_LOG.calls.append(({name!r}, {{{', '.join(f'{w!r}: {p}' for w, p in zip(wiring, params))}}}))"]
+    if is_async:
+        body.append(f"for _k in range({int(yields)}): await _SLEEP(0)")
     if fail_when is not None:
         body.append(f"if _FAIL({name!r}, {{{', '.join(f'{w!r}: {p}' for w, p in zip(wiring, params))}}}): raise _ERR({name!r})")
-    if is_async:
-        body.append("await _SLEEP(0)")
     if op == "tag":
         vals = [f"({name!r}, {i}, {', '.join(params)}{',' if params else ''})" for i in range(len(outs))]
     elif op == "sum":
